@@ -32,9 +32,10 @@ class Case:
     n: int = 40
     canary_native: bool = True
     msg: str | None = None  # substring expected in the Unsupported message
+    first_solver: str | None = None  # per-contract `portfolio=`: the configuration that must get the first attempt at every real obligation
 
 
-def case(target, *, expect="proved", must_fail=(), gen=None, build=None, call=None, n=40, canary_native=True, msg=None, **kw):
+def case(target, *, expect="proved", must_fail=(), gen=None, build=None, call=None, n=40, canary_native=True, msg=None, first_solver=None, **kw):
     kw.setdefault("props", ["SELFTEST"])
     if gen is not None:
         def _gen(rng, k, gen=gen):
@@ -42,5 +43,5 @@ def case(target, *, expect="proved", must_fail=(), gen=None, build=None, call=No
 
         kw["runtime"] = Runtime(_gen, build or (lambda d: dict(d)), call)
     c = api.contract(target, **kw)
-    CASES.append(Case(c, expect, list(must_fail), n, canary_native, msg))
+    CASES.append(Case(c, expect, list(must_fail), n, canary_native, msg, first_solver))
     return c
